@@ -283,7 +283,14 @@ func checkC06(c *Ctx) {
 				r.Bad("C06/SIZE/data", cons, gs, "%s can return success at %s without passing the size gate", shortFn(m.dataRead), p.InstrPos(bypass))
 				continue
 			}
-			r.Ok("C06/SIZE/data", cons, gs, "gate in %s: over-limit edge returns only non-nil errors; every success return passes the gate; the caller's `err != nil` branch (%s) keeps Deliver off the error edge", shortFn(m.dataRead), p.InstrPos(guardIf))
+			// a read bound (io.LimitReader / CopyN) in front of the gate must be MaxMessageBytes+k,
+			// k >= 1: any other bound truncates silently, the gate then sees a short length and a
+			// prefix of an oversized message is accepted and stored
+			if why := c.c06ReadBound(m); why != "" {
+				r.Bad("C06/SIZE/data", cons+":read-bound", gs, "%s", why)
+				continue
+			}
+			r.Ok("C06/SIZE/data", cons, gs, "gate in %s: over-limit edge returns only non-nil errors; every success return passes the gate; the caller's `err != nil` branch (%s) keeps Deliver off the error edge; read bound is MaxMessageBytes+k", shortFn(m.dataRead), p.InstrPos(guardIf))
 			// D3: how does F treat the over-limit error?
 			var sentinel *ssa.Global
 			eng.BlockReaches(over, func(in ssa.Instruction) bool {
@@ -373,4 +380,36 @@ func (c *Ctx) c06Usable(m *smtpModel, cons string, from *ssa.BasicBlock, gateSit
 		return
 	}
 	r.Ok("C06/USABLE", cons, gateSite, "over-limit path replies 5xx, resets the envelope, never enters QUIT")
+}
+
+// c06ReadBound checks every io.LimitReader / io.CopyN bound in the DATA-read function.
+func (c *Ctx) c06ReadBound(m *smtpModel) string {
+	p := c.P
+	why := ""
+	eng.EachInstr(m.dataRead, func(in ssa.Instruction) {
+		call, ok := in.(*ssa.Call)
+		if !ok {
+			return
+		}
+		var lim ssa.Value
+		switch eng.CalleeName(call.Common()) {
+		case "io.LimitReader":
+			lim = call.Call.Args[1]
+		case "io.CopyN":
+			lim = call.Call.Args[2]
+		default:
+			return
+		}
+		v := eng.StripConv(lim)
+		b, ok := v.(*ssa.BinOp)
+		if !ok || b.Op != token.ADD {
+			why = "the read bound at " + p.InstrPos(call) + " is not config.SMTP.MaxMessageBytes + k: a bound from any other source (e.g. the size the client declared) truncates an oversized message to a length the size gate accepts"
+			return
+		}
+		k, isC := eng.ConstInt(b.Y)
+		if !isC || k < 1 || !eng.SameField(eng.LoadedField(eng.StripConv(b.X)), m.fMaxBytes) {
+			why = "the read bound at " + p.InstrPos(call) + " is not config.SMTP.MaxMessageBytes + k (k >= 1): the gate `len > Max` can never observe an over-limit message, or observes a truncated one"
+		}
+	})
+	return why
 }
